@@ -107,7 +107,7 @@ class C15(object):
     rule = ("one run = (overlap graph with 1..60 nodes: chains in both directions and shuffled, stars, cliques, forests, "
             "duplicates, self loops, isolated nodes, no edges; property table; T = 1..16 simulated numba threads with "
             "contiguous or random chunks; strategy; interleaving between bytecodes); distinct = distinct (graph digest, "
-            "T, chunking, schedule signature); non-trivial = the graph has an edge between different nodes and T >= 2; also: omega/dty/scale as 1-D or 2-D maps in C/Fortran/transposed/strided layout and float32/integer dtype, int32/unsigned index arrays, the same table merged 1-3 times, the overlap matrix dumped in between, renumbering of converged labellings beyond 4096 peaks, native conformance at 1/2/4 numba threads and on one long shuffled chain, labels of the first call looked at after a second labelling")
+            "T, chunking, schedule signature); non-trivial = the graph has an edge between different nodes and T >= 2; also: omega/dty/scale as 1-D or 2-D maps in C/Fortran/transposed/strided layout and float32/integer dtype, int32/unsigned index arrays, the same table merged 1-3 times, the overlap matrix dumped in between, renumbering of converged labellings beyond 4096 peaks, native conformance at 1/2/4 numba threads and on one long shuffled chain, labels of the first call looked at after a second labelling, scale factors of exactly 0")
     components = {"real": ["ImageD11.sinograms.properties: find_ND_labels, pks_table.find_uniq / pk2dmerge / pk2d (unchanged "
                            "Python); the Python source (py_func) of numbalabelNd, get_clean_labels, n_pk2d",
                            "natively compiled numbalabelNd/get_clean_labels/numbapkmerge at numba thread counts 1, 2, 4 "
